@@ -8,7 +8,7 @@ import (
 	"strings"
 )
 
-var keyAtoms = []string{"a", "b", "/", "//", "/./", "/../", "|", "%2F", "%7C", "?", "&", "=", ";", "c"}
+var keyAtoms = []string{"a", "b", "/", "//", "/./", "/../", "|", "%2F", "%7C", "?", "&", "=", ";", "c", "/%2e/", "%2E", "/%2e%2e/", "%2f"}
 
 func genTarget(r *rand.Rand, n int) string {
 	var b strings.Builder
@@ -172,7 +172,13 @@ func silentNorm(t string) string {
 	t = strings.TrimSuffix(t, "?")
 	t = strings.ReplaceAll(t, "%7C", "|")
 	t = strings.ReplaceAll(t, "%7c", "|")
-	return t
+	// an encoded dot is an unreserved character: whether "%2e" counts as a dot-segment is not stated
+	pth, q, hasQ := strings.Cut(t, "?")
+	pth = strings.ReplaceAll(strings.ReplaceAll(pth, "%2e", "."), "%2E", ".")
+	if hasQ {
+		return pth + "?" + q
+	}
+	return pth
 }
 
 // dontCare: pairs about which the statement is silent.
